@@ -26,7 +26,7 @@ func c10Scenarios(tier string) []Scenario {
 	var out []Scenario
 	thorough := tier == "thorough"
 	add := func(s *ClientScenario, fam string) {
-		s.Rules = "RL"
+		s.Rules = "R"
 		s.Name = fmt.Sprintf("c10-%05d", len(out))
 		out = append(out, &clientScen{s: s, fam: fam + "-" + fam46(s.V6)})
 	}
